@@ -210,6 +210,14 @@ func (f changeFinder) walkStruct(from, to *value) bool {
 			pos := c.Interface().(token.Pos)
 			if pos.IsValid() {
 				starts[i] = pos
+			} else {
+				// An optional token that is absent (the "..." of a
+				// call, the "=" of an alias) has no position of its
+				// own. If a patch adds it, the change is between the
+				// neighbouring fields; leaving the start at NoPos
+				// would report everything from the beginning of the
+				// file as changed.
+				starts[i] = lastEnd
 			}
 		default:
 			// Otherwise the start position is the end position of the last
